@@ -2,6 +2,8 @@
 EL = 'src/prayer_times/ext_lat.rs'
 HR = 'src/prayer_times/hours.rs'
 DT = 'src/prayer_times/date.rs'
+QB = 'src/geo/qibla.rs'
+MAIN = 'src/main.rs'
 MOD = 'src/prayer_times/mod.rs'
 VARIANTS = [
     # ---------------------------------------------------------------- C08
@@ -197,4 +199,40 @@ VARIANTS = [
                     }
                 }""")]),
     dict(id='c15-partition-other-count', property='C15', expect=r'R15\.3', edits=[(MOD, 'let date_ranges = date_range.partition(avail_pll);', 'let date_ranges = date_range.partition(avail_pll - 1);')]),
+    # ---------------------------------------------------------------- C16
+    dict(id='c16-atan', property='C16', expect=r'R16\.1', edits=[(QB, 'let degrees = x.sin().atan2(y).to_degrees();', 'let degrees = (x.sin() / y).atan().to_degrees();')]),
+    dict(id='c16-elevation', property='C16', expect=r'R16\.2', edits=[(QB, 'let degrees = x.sin().atan2(y).to_degrees();',
+         'let degrees = x.sin().atan2(y).to_degrees() + f64::from(coords.elevation) * 1e-9;')]),
+    dict(id='c16-labels-swapped', property='C16', expect=r'R16\.3', edits=[(QB, """        if self.degrees < 0. {
+            Rotation::Cw
+        } else {
+            Rotation::Ccw
+        }""", """        if self.degrees < 0. {
+            Rotation::Ccw
+        } else {
+            Rotation::Cw
+        }""")]),
+    dict(id='c16-constant', property='C16', expect=r'R16\.4', edits=[(QB, 'const KAABA_LATITUDE: f64 = 21.423333;', 'const KAABA_LATITUDE: f64 = 21.5;')]),
+    dict(id='c16-reversed-difference', property='C16', expect=r'R16\.5', edits=[(QB,
+         'let x = f64::from(coords.longitude).to_radians() - Self::KAABA_LONGITUDE.to_radians();',
+         'let x = Self::KAABA_LONGITUDE.to_radians() - f64::from(coords.longitude).to_radians();')]),
+    dict(id='c16-abs-latitude', property='C16', expect=r'R16\.', edits=[(QB,
+         'let y = lat_rads.cos() * Self::KAABA_LATITUDE.to_radians().tan() - lat_rads.sin() * x.cos();',
+         'let y = lat_rads.cos() * Self::KAABA_LATITUDE.to_radians().tan() - lat_rads.sin() * x.cos() + x.sin() * 1e-3;')]),
+    # ---------------------------------------------------------------- C19
+    dict(id='c19-dates-swapped', property='C19', expect=r'R19\.2', edits=[(MAIN,
+         'date_range: Some(DateRange::from(start_date..=end_date)),', 'date_range: Some(DateRange::from(end_date..=start_date)),')]),
+    dict(id='c19-default-params', property='C19', expect=r'R19\.2', edits=[(MAIN, 'let params = Params::new(cli_args.method);', 'let params = Params::default();')]),
+    dict(id='c19-lat-lon-swapped', property='C19', expect=r'R19\.1', edits=[(MAIN,
+         """        cli_args.latitude.unwrap(),
+        cli_args.longitude.unwrap(),""", """        Latitude::try_from(f64::from(cli_args.longitude.unwrap()) / 2.).unwrap(),
+        cli_args.longitude.unwrap(),"""), (MAIN, '    prayer_times_dt_rng_block, Coordinates, DateRange, HijriDate, Location, Params, Prayer,',
+         '    prayer_times_dt_rng_block, Coordinates, DateRange, HijriDate, Latitude, Location, Params, Prayer,')]),
+    dict(id='c19-field-f64', property='C19', expect=r'R19\.1', edits=[('src/cli.rs',
+         """    #[arg(short, long, value_parser = clap::value_parser!(Elevation), default_value = "0")]
+    pub elevation: Elevation,""", """    #[arg(short, long, default_value = "0")]
+    pub elevation: f64,"""), (MAIN, '        cli_args.elevation,', '        islamic_prayer_times::Elevation::try_from(cli_args.elevation.clamp(-420., 8848.)).unwrap(),')]),
+    dict(id='c19-output-other-value', property='C19', expect=r'R19\.[24]', edits=[(MAIN,
+         '        write_prayer_times_file(&pts_by_date, &output_file_path);',
+         '        write_prayer_times_file(&islamic_prayer_times::prayer_times_dt_rng(&params_config.params, params_config.location, &DateRange::default()), &output_file_path);')]),
 ]
